@@ -104,6 +104,40 @@ var statements = []string{
 	"SELECT a FROM t WHERE b = 1 FOR UPDATE",
 }
 
+// exprStatements puts every nesting construct on each side of every binary operator class, so that a poll
+// exists below each (operator, side) pair of the expression parser.
+func exprStatements() []string {
+	opsList := []string{"OR", "AND", "=", "<>", "+", "*", "||", "LIKE"}
+	nests := []string{"(x + 1)", "f(x, 2)", "x IN (1, 2, 3)", "EXISTS (SELECT 1 FROM u)", "CASE WHEN x = 1 THEN 2 ELSE 3 END",
+		"(SELECT MAX(y) FROM u)", "x BETWEEN 1 AND 2", "NOT (x = 1)", "CAST(x AS INT)"}
+	var out []string
+	for _, op := range opsList {
+		for _, n := range nests {
+			boolish := strings.Contains(n, " IN ") || strings.HasPrefix(n, "EXISTS") || strings.Contains(n, "BETWEEN") || strings.HasPrefix(n, "NOT")
+			arith := op != "OR" && op != "AND"
+			if arith && boolish {
+				continue
+			}
+			out = append(out, "SELECT a FROM t WHERE "+n+" "+op+" b", "SELECT a FROM t WHERE b "+op+" "+n)
+		}
+	}
+	return out
+}
+
+// probes are run on the instances a cancelled call used; they exercise every scanning loop of the tokenizer
+// and the nesting budget of the parser.
+func tokenizerProbes() []string {
+	return []string{
+		"SELECT a -- c\nFROM 'open",
+		"SELECT /* " + strings.Repeat("long comment ", 400) + "*/ a FROM t",
+		"SELECT '" + strings.Repeat("long string ", 400) + "' FROM t",
+		"-- " + strings.Repeat("long line comment ", 300) + "\nSELECT 1",
+		"SELECT " + strings.Repeat("a, ", 150) + "a FROM t",
+		"SELECT \"" + strings.Repeat("q", 5000) + "\" FROM t",
+		"\t\t SELECT $$" + strings.Repeat("body ", 1000) + "$$",
+	}
+}
+
 func longInput(cols int) string {
 	return "SELECT " + strings.Repeat("a, ", cols) + "a FROM t WHERE a = 1"
 }
@@ -169,6 +203,11 @@ var entries = []entry{
 		}},
 }
 
+var (
+	tokProbes    []string
+	parserProbes []string
+)
+
 type dlErr struct{}
 
 func (dlErr) Error() string   { return context.DeadlineExceeded.Error() }
@@ -197,6 +236,7 @@ func main() {
 	run.AddTLC(st)
 
 	stmts := append([]string{}, statements...)
+	stmts = append(stmts, exprStatements()...)
 	stmts = append(stmts, longInput(110))
 	if tier == "thorough" {
 		stmts = append(stmts, longInput(320))
@@ -212,6 +252,18 @@ func main() {
 			}
 		}
 	}
+	tokProbes = tokenizerProbes()
+	// the deepest nesting a fresh parser accepts (calibrated) shows a leaked recursion depth
+	deep := 1
+	for d := 2; d < 400; d++ {
+		tree, err := parser.NewParser().ParseFromModelTokens(mustTokens("SELECT " + strings.Repeat("(", d) + "1" + strings.Repeat(")", d)))
+		if err != nil {
+			break
+		}
+		ast.ReleaseAST(tree)
+		deep = d
+	}
+	parserProbes = []string{"SELECT x FROM y WHERE ) z", "SELECT " + strings.Repeat("(", deep) + "1" + strings.Repeat(")", deep), "SELECT a FROM t WHERE a = 1 OR b IN (1, 2)"}
 	var trace strings.Builder
 	type runInfo struct {
 		line  int
@@ -285,23 +337,31 @@ func main() {
 							Case: caseInfo, Observe: map[string]any{"polls_after_fire": post, "sites": c.sites[k:]}})
 					}
 					// residue: the instances used by the cancelled call behave like fresh ones
-					probe := "SELECT x FROM y WHERE ) z"
 					if e.parser {
-						got, _, _ := render(pi.ParseFromModelTokensWithPositions(mustTokens(probe)))
-						want, _, _ := render(parser.NewParser().ParseFromModelTokensWithPositions(mustTokens(probe)))
 						vs := pi.VerifState()
-						if got != want || vs.CtxSet || vs.Depth != 0 {
-							run.Violate(core.Violation{Sig: "residue-after-cancel|parser|" + site, Clause: "the parser used by a cancelled call remains fit for reuse",
-								Case: caseInfo, Observe: map[string]any{"probe": got, "state": vs}, Expect: want})
+						if vs.CtxSet || vs.Depth != 0 {
+							run.Violate(core.Violation{Sig: "residue-after-cancel|parser|state|" + site, Clause: "the parser used by a cancelled call remains fit for reuse",
+								Case: caseInfo, Observe: vs})
+						}
+						for _, probe := range parserProbes {
+							got, _, _ := render(pi.ParseFromModelTokensWithPositions(mustTokens(probe)))
+							want, _, _ := render(parser.NewParser().ParseFromModelTokensWithPositions(mustTokens(probe)))
+							if got != want {
+								run.Violate(core.Violation{Sig: "residue-after-cancel|parser|" + site, Clause: "the parser used by a cancelled call remains fit for reuse",
+									Case: caseInfo, Observe: map[string]any{"probe": firstN(probe, 80), "result": firstN(got, 300)}, Expect: firstN(want, 300)})
+								break
+							}
 						}
 					} else {
-						tp := "SELECT a -- c\nFROM 'open"
-						toks, terr := ti.Tokenize([]byte(tp))
-						ft := newTok()
-						wt, werr := ft.Tokenize([]byte(tp))
-						if ops.TokString(toks, true) != ops.TokString(wt, true) || fmt.Sprint(terr) != fmt.Sprint(werr) || ops.CommentString(ti.Comments) != ops.CommentString(ft.Comments) {
-							run.Violate(core.Violation{Sig: "residue-after-cancel|tokenizer|" + site, Clause: "the tokenizer used by a cancelled call remains fit for reuse",
-								Case: caseInfo, Observe: fmt.Sprint(terr), Expect: fmt.Sprint(werr)})
+						for _, tp := range tokProbes {
+							toks, terr := ti.Tokenize([]byte(tp))
+							ft := newTok()
+							wt, werr := ft.Tokenize([]byte(tp))
+							if ops.TokString(toks, true) != ops.TokString(wt, true) || fmt.Sprint(terr) != fmt.Sprint(werr) || ops.CommentString(ti.Comments) != ops.CommentString(ft.Comments) {
+								run.Violate(core.Violation{Sig: "residue-after-cancel|tokenizer|" + site, Clause: "the tokenizer used by a cancelled call remains fit for reuse",
+									Case: caseInfo, Observe: map[string]any{"probe": firstN(tp, 60), "err": fmt.Sprint(terr)}, Expect: fmt.Sprint(werr)})
+								break
+							}
 						}
 					}
 					_ = inParser
